@@ -33,7 +33,7 @@ func (d *DirEntry) Interface() interface{} {
 }
 
 func (d *DirEntry) String() string {
-	return fmt.Sprintf("dir_entry(%v)", d.value)
+	return d.Inspect()
 }
 
 func (d *DirEntry) Equals(other Object) Object {
